@@ -99,6 +99,11 @@ impl SymbolTable {
         self.contexts.pop().unwrap().max_size()
     }
 
+    /// Returns true if the current context is a local (function) context
+    pub fn in_function(&self) -> bool {
+        self.contexts.len() > 1
+    }
+
     /// Enter a new scope in the current context
     /// For example, at the start of a block statement.
     pub fn enter_scope(&mut self) {
